@@ -91,6 +91,16 @@ fn extract_showincludes(output: Vec<u8>) -> (Vec<String>, Vec<u8>) {
     (includes, filtered_output)
 }
 
+#[cfg(feature = "verif")]
+pub(crate) fn verif_read_depfile(path: &Path) -> anyhow::Result<Vec<String>> {
+    read_depfile(path)
+}
+
+#[cfg(feature = "verif")]
+pub(crate) fn verif_extract_showincludes(output: Vec<u8>) -> (Vec<String>, Vec<u8>) {
+    extract_showincludes(output)
+}
+
 /// Find the span of the last line of text in buf, ignoring trailing empty
 /// lines.
 fn find_last_line(buf: &[u8]) -> &[u8] {
